@@ -67,6 +67,25 @@ CLAIMED = {
        'bounce_queue.enqueue) is checked on the real Bounce/Queue by the campaign; the real Queue is driven through failure histories and compared '
        'round by round with the model.',
   ref='6/C13', technique='Lean 4 proof (grouping lemmas, case analysis over attempt outcomes) + differential correspondence vs real Queue/Bounce histories'),
+ 'C03': dict(
+  text='PARTIAL (sequential histories + storage; interleavings pending). Lean theorems over Model/Attempt.lean + Model/Store.lean: for every valid '
+       'history of delivery attempts (any rounds, recipients, outcomes, backoff) a recipient reported delivered or permanently failed is in no '
+       'later attempt; the next attempt is made for exactly the transiently refused recipients; the accumulating index representation of '
+       'disk/redis/cloud agrees with the reference store over any number of marking rounds. The real Queue is driven through exhaustive '
+       'per-recipient outcome tables (<=3 recipients x 3 outcomes x <=3 rounds, mapping and sequence forms) on all four backends and compared with '
+       'the model round by round; overlapping attempts are monitored. Not yet proved: single attempt in flight under all interleavings of '
+       'enqueue / timers / flush / load / wait() (scheduler model).',
+  ref='6/C03', technique='Lean 4 proof (conservation/counting invariant over attempt histories, store refinement) + differential correspondence vs real Queue on 4 backends',
+  note='Partial: interleavings are exercised only as far as the started real queue produces them.'),
+ 'C01': dict(
+  text='PARTIAL (ledger; scheduling pending). Lean theorems over Model/Attempt.lean: for every attempt outcome and every history each accepted recipient '
+       'is exactly one of delivered / failed for good / still stored; the message is removed only when nobody is outstanding; when the backoff '
+       'returns None everybody outstanding is failed; failed recipients of a non-null-sender message are named in a bounce (with C13). The real Queue '
+       'is driven through seeded histories mixing None/Reply, mapping, sequence, Transient, Permanent and unexpected exceptions on dict, disk, redis and '
+       'cloud backends and compared with the model; the ledger is monitored on the implementation. Known finding: bounded pools can stall the queue. '
+       'Not yet proved: that an outstanding message is always scheduled (C12 scheduler model).',
+  ref='6/C01', technique='Lean 4 proof (ledger conservation by counting, induction over histories) + differential correspondence vs real Queue on 4 backends',
+  note='Partial: "keeps being retried" under all interleavings rests on the scheduler model still to be built.'),
 }
 def main():
     props = [json.loads(l) for l in open(os.path.join(V, 'properties.jsonl'))]
